@@ -226,7 +226,7 @@ main(void)
                         const char *t = tok[8 + i];
                         if (!strcmp(t, "n")) a[i] = 0;
                         else if (!strcmp(t, "g")) a[i] = (long) (gregion + 4096 * (2 + 4 * i) + 64);
-                        else if (!strcmp(t, "v") || !strcmp(t, "s") || t[0] == 'b') {
+                        else if (!strcmp(t, "v") || !strcmp(t, "s") || (t[0] == 'b' && t[1] == ':')) {
                                 memset(vbuf[i], 0xA5, VSZ);
                                 if (t[0] == 'b') unhex(t + 2, vbuf[i], VSZ);
                                 if (t[0] == 's') {
